@@ -143,7 +143,8 @@ CHECKS["C07"] = dict(engine="E1", cat="model_checking", design="4/C07",
 CHECKS["C20"] = dict(engine="E2", cat="model_checking", design="4/C20",
                      technique="explicit enumeration of all valid event histories up to a row bound on the real "
                                "EventManager, compared time point by time point with a reference interval model",
-                     text="Every sequence of <= 3 (thorough 4) rows of 1-2 items (Onset/Offset of two names, Duration groups "
+                     text="Every sequence of <= 3 (thorough 4; three-row histories over a reduced row menu, four-row histories over eight "
+                          "row kinds) rows of 1-2 items (Onset/Offset of two names, Duration groups "
                           "of 4 lengths in s / ms / bare, Delay-shifted Onsets and Durations incl. two Delay groups in one "
                           "row, plain tag, empty) under every non-decreasing onset assignment over the grid, filtered to "
                           "valid histories by the reference machine, is given to EventManager: entries in time order, the "
